@@ -246,25 +246,10 @@ def domain_skeleton(ctx):
                 break
 
 
-def dollar_after_dot(text):
-    """mechanism of KF-C12-1: an unquoted name part that directly follows a `.` and contains `$` or `#` — the lexer's `.Name` rule
-    `(?<=\\.)[A-ZÀ-Ü]\\w*` stops at that character, while the word rule `\\w[$#\\w]*` (used for an unqualified name) does not"""
-    import re
-    t = re.sub(r'"(""|[^"])*"|`(``|[^`])*`', 'Q', text)
-    return re.search(r'\.[^\W\d_]\w*[$#]', t) is not None
-
-
-def classify(f, kf):
-    for k in kf:
-        ref = f.get('ref') if isinstance(f.get('ref'), str) else f.get('required')
-        if k['id'] == 'KF-C12-1' and isinstance(ref, str) and dollar_after_dot(ref):
-            return k['id']
-    return None
-
-
 def replay_known(ctx, k):
+    """witnesses carry input / qualifier / name / alias (KF-C12-F1, fixed in 783c51f: a regression input — true iff it fails again)"""
     for w in k.get('witnesses', []):
-        if not _has_ref(w['input'], w.get('qualifier'), w['name'], w.get('alias')):
+        if 'name' in w and not _has_ref(w['input'], w.get('qualifier'), w['name'], w.get('alias')):
             return True
     return False
 
